@@ -47,6 +47,10 @@ CHECKS["C14"] = ("other", "alias allocator: symbolic execution of the real TypeC
   "trusted: go/ssa, the interpreter fork, fmt.Sprintf stub, cvc5/z3, go/types and go/format as oracles of the gates; 'imports exactly what it uses' / 'compiles' only per enumerated configuration; MigrateFiles' failure points are covered through the invalid-input gate, not symbolically",
   "symbolic execution of go/ssa + SMT strings for the alias allocator; enumeration gates through the real CLI for well-formedness", "§5 C14")
 
+CHECKS["C13"] = ("translation_validation", "oracle = google/wire v0.7.0 itself: for every enumerated wire configuration (DAG family, construct family, repository testdata) wire's injector and the injector kessoku generates from the migrated file are both executed symbolically from go/ssa (providers uninterpreted, struct literals as constructor terms, failures forked at every fallible call); result terms, multisets of (provider, argument terms), parameter lists and the error of every single-failure path must agree. The defect found (K10, Bind by-name constructor) was fixed (5450be3).",
+  "trusted: go/ssa, the interpreter fork, google/wire built from the module cache, providers as deterministic uninterpreted functions; configurations wire rejects are outside the quantifier; bound: the enumerated configurations",
+  "symbolic execution of both generated injectors (go/ssa) and comparison of closed terms in the free term algebra (sequential code: no schedule dimension, no SMT query needed)", "§5 C13")
+
 NA_REASON = "check under construction in this session (DESIGN.md §10 build order); not claimed yet"
 
 def main():
